@@ -218,6 +218,38 @@ fn decapture_of_rules(r: &R, inside_of: bool) -> R {
   }
 }
 
+fn utils_reached_from_of_rules(rule: &R, utils: &BTreeMap<String, R>) -> std::collections::BTreeSet<String> {
+  fn collect(r: &R, inside: bool, out: &mut Vec<String>) {
+    match r {
+      R::Matches(u) if inside => out.push(u.clone()),
+      R::Obj(v) | R::All(v) | R::Any(v) => v.iter().for_each(|x| collect(x, inside, out)),
+      R::Not(x) => collect(x, inside, out),
+      R::Nth { of: Some(o), .. } => collect(o, true, out),
+      R::Inside(x, s, _) | R::Has(x, s, _) | R::Precedes(x, s) | R::Follows(x, s) => {
+        collect(x, inside, out);
+        if let Stop::Rule(st) = s {
+          collect(st, inside, out);
+        }
+      }
+      _ => {}
+    }
+  }
+  let mut seeds = vec![];
+  collect(rule, false, &mut seeds);
+  for u in utils.values() {
+    collect(u, false, &mut seeds);
+  }
+  let mut reach = std::collections::BTreeSet::new();
+  while let Some(u) = seeds.pop() {
+    if reach.insert(u.clone()) {
+      if let Some(body) = utils.get(&u) {
+        collect(body, true, &mut seeds);
+      }
+    }
+  }
+  reach
+}
+
 fn ops_sig(rule: &R, utils: &BTreeMap<String, R>) -> String {
   let mut ops: Vec<&str> = rule.operators();
   for u in utils.values() {
@@ -332,7 +364,9 @@ pub fn check_rule(case: &Case, root: &N, nodes: &[N], rule: &R, utils: &BTreeMap
           if attributed.is_none() {
             if decap.is_none() {
               let de = decapture_of_rules(rule, false);
-              let de_utils: BTreeMap<String, R> = utils.iter().map(|(k, v)| (k.clone(), decapture_of_rules(v, false))).collect();
+              // utilities reachable from inside an ofRule are evaluated under the same shared env
+              let reach = utils_reached_from_of_rules(rule, utils);
+              let de_utils: BTreeMap<String, R> = utils.iter().map(|(k, v)| (k.clone(), decapture_of_rules(v, reach.contains(k)))).collect();
               let changed = format!("{:?}{:?}", de, de_utils) != format!("{:?}{:?}", rule, utils);
               let built = if changed {
                 build_core(&core_yaml(&de, &de_utils), case.lang).ok().and_then(|c| {
@@ -456,6 +490,12 @@ pub fn run_source(lang: SupportLang, fname: &str, src: &str, n_rules: usize, max
   let pats = disjoint_patterns(&root, lang, 14, rng);
   let h = rule::harvest(&root, src, pats, field_names(lang), rng);
   let case = Case { lang, lname: &lname, fname, src };
+  // nested relations over a node with hundreds of children (flat ERROR nodes) are quartic: shallow rules only there
+  let wide = root.dfs().map(|n| n.children().len()).max().unwrap_or(0) > 120;
+  let (n_rules, max_depth) = if wide { (n_rules / 3 + 1, 1) } else { (n_rules, max_depth) };
+  if wide {
+    rep.count("sources_wide_node_shallow_rules", 1);
+  }
   for k in 0..n_rules {
     let utils = gen_utils(&h, rng);
     let cfg = GenCfg { picks: std::cell::Cell::new(0), disjoint_vars: true, max_depth, utils: utils.keys().cloned().collect(), allow_field: true, allow_range: true };
